@@ -1,6 +1,7 @@
 CONSTANTS
   MaxFiles = 2
   Depth2 = FALSE
+  EndInclusiveFix = TRUE
   Emit = FALSE
 INIT Init
 NEXT Next
